@@ -504,15 +504,29 @@ def run_write(ctx, case):
         from mpilot.cli.mpilot import main
         d2 = ctx.scratch()
         cols = [t["cols"][ci] for ci in dict.fromkeys(order)]
+        # column names with backslashes in them (written with the escapes the command-file syntax has for quoted strings)
+        hdr = ["c%d" % k for k in range(len(cols))]
+        if case["rseed"] % 3 == 0:
+            hdr[0] = ["rate\\time", "a\\nb", "x\\ry", "q\\x41", "d\\u0041e", "back\\\\slash"][case["rseed"] // 3 % 6]
+        esc = lambda name: name.replace("\\", "\\\\").replace('"', '\\"')
         with open(os.path.join(d2, "in.csv"), "w") as f:
-            f.write(",".join("c%d" % k for k in range(len(cols))) + "\n")
+            f.write(",".join(hdr) + "\n")
             for r in range(t["nrows"]):
                 f.write(",".join(repr(c["data"][r]) for c in cols) + "\n")
-        lines = ['R%d = EEMSRead(InFileName = "in.csv", InFieldName = c%d, DataType = %s)' % (k, k, "Integer" if c["integer"] else "Float") for k, c in enumerate(cols)]
+        lines = ['R%d = EEMSRead(InFileName = "in.csv", InFieldName = "%s", DataType = %s)' % (k, esc(hdr[k]), "Integer" if c["integer"] else "Float") for k, c in enumerate(cols)]
         lines.append('Out = EEMSWrite(OutFileName = "out2.csv", OutFieldNames = [%s])' % ", ".join("R%d" % k for k in range(len(cols))))
         fp = os.path.join(d2, "model.mpt")
         with open(fp, "w") as f:
             f.write("\n".join(lines) + "\n")
+        if case["rseed"] % 24 == 12:
+            # the command file is kept elsewhere (next to another table of the same name) and linked into the directory of the data
+            store = os.path.join(d2, "shared")
+            os.makedirs(store)
+            os.replace(fp, os.path.join(store, "model.mpt"))
+            with open(os.path.join(store, "in.csv"), "w") as f:
+                f.write(",".join(hdr) + "\n" + ",".join("77" for _ in cols) + "\n")
+            os.symlink(os.path.join(store, "model.mpt"), fp)
+            ctx.count("tool_runs_through_a_linked_command_file")
         if case["rseed"] % 24 == 0:
             # started the way users start it: in the directory of the command file, by its bare name
             from mpv import tool
